@@ -29,6 +29,8 @@ def doc_dict(d):
             "condition": {"gte": 1},
             "generate": bool(d["generate"]),
         }
+        if d.get("arefs"):
+            base["correlation"]["aliases"] = {"al": {(f"n{r['key']}" if r["by"] == "name" else uuid_of(r["key"])): "f" for r in d["arefs"]}}
     return base
 
 
